@@ -34,6 +34,8 @@ type Prog struct {
 	Stun  *ssa.Package
 	Hmac  *ssa.Package
 	funcs []*ssa.Function // all module functions (incl. anonymous), deterministic order
+	// InlineInfo records the helper normalisation that was applied (nil: nothing to normalise).
+	InlineInfo map[string]interface{}
 	cg    *CallGraph
 }
 
@@ -72,6 +74,30 @@ func loadProg(dir string, cfg Config) (*Prog, error) {
 		return nil, fmt.Errorf("configuration %s does not type-check: %s", cfg, strings.Join(errs, "; "))
 	}
 	p := &Prog{Cfg: cfg, Dir: dir}
+	// helper normalisation (inline.go): analyse the helper-free normal form when new helpers exist
+	if os.Getenv("STUNLINT_NOINLINE") == "" {
+		var all0 []*packages.Package
+		packages.Visit(initial, nil, func(pk *packages.Package) { all0 = append(all0, pk) })
+		ir, ierr := inlineNewHelpers(initial, all0, cfg.GOARCH)
+		switch {
+		case ierr != nil:
+			p.InlineInfo = map[string]interface{}{"abandoned": ierr.Error()}
+		case ir != nil:
+			pc2 := *pc
+			pc2.Overlay = ir.Overlay
+			initial2, err2 := packages.Load(&pc2, "./...")
+			nerr := 0
+			if err2 == nil {
+				packages.Visit(initial2, nil, func(pk *packages.Package) { nerr += len(pk.Errors) })
+			}
+			if err2 != nil || nerr > 0 || len(initial2) != len(initial) {
+				p.InlineInfo = map[string]interface{}{"abandoned": "normalised program does not load", "skipped": ir.Skipped}
+			} else {
+				initial = initial2
+				p.InlineInfo = map[string]interface{}{"inlined": ir.Notes, "helpers_dropped": ir.Removed, "not_inlined": ir.Skipped}
+			}
+		}
+	}
 	p.Fset = initial[0].Fset
 	packages.Visit(initial, nil, func(pk *packages.Package) { p.All = append(p.All, pk) })
 	for _, pk := range initial {
